@@ -191,7 +191,24 @@ type req struct{ method, path string }
 
 func runRouter(tb *model.Table, hist []req) string {
 	r := tb.Opts.NewRouter()
+	var lastDyn req
+	lastDynKey := ""
 	model.Register(r, tb.Routes, func(d model.RouteDef) rux.HandlerFunc {
+		h := plainHandler(d)
+		// when the request asks for it, the handler first serves another request through the same router (a
+		// sub-request, as an aggregating endpoint does)
+		return func(c *rux.Context) {
+			if p := c.Req.Header.Get("X-Nest-Path"); p != "" {
+				r.ServeHTTP(httptest.NewRecorder(), &http.Request{Method: c.Req.Header.Get("X-Nest-Method"), URL: &url.URL{Path: p}, Header: http.Header{}})
+			}
+			h(c)
+		}
+	})
+	return runRouterHistory(r, tb, hist, &lastDyn, &lastDynKey)
+}
+
+func plainHandler(d model.RouteDef) rux.HandlerFunc {
+	{
 		name := d.Name()
 		// what a handler answers is its own business: some routes answer 404 or 500 themselves (a resource that
 		// does not exist) - the request was resolved all the same, and the cache entry stays
@@ -204,7 +221,10 @@ func runRouter(tb *model.Table, hist []req) string {
 			return func(c *rux.Context) { http.NotFound(c.Resp, c.Req); c.WriteString(name) }
 		}
 		return func(c *rux.Context) { c.WriteString(name) }
-	})
+	}
+}
+
+func runRouterHistory(r *rux.Router, tb *model.Table, hist []req, lastDyn *req, lastDynKey *string) string {
 	for i, q := range hist {
 		res := tb.Resolve(q.method, q.path)
 		rt, ps, _ := r.Match(q.method, q.path)
@@ -268,6 +288,18 @@ func runRouter(tb *model.Table, hist []req) string {
 		if rec.Code != 200 {
 			ev.Class("resolved-request-answered-non-200-by-its-handler")
 		}
+		// the same request once more, its handler serving the previous dynamic request in the middle: the entry that
+		// was used LAST is the nested one (the outer request used its entry when it was resolved, before its handlers ran)
+		if *lastDynKey != "" && *lastDynKey != want && tb.Opts.CacheCap >= 2 {
+			r.ServeHTTP(httptest.NewRecorder(), &http.Request{Method: q.method, URL: &url.URL{Path: q.path}, Header: http.Header{"X-Nest-Method": {lastDyn.method}, "X-Nest-Path": {lastDyn.path}}})
+			if k := cache.VerifKeys(); len(k) < 2 || k[0] != *lastDynKey || k[1] != want {
+				return fmt.Sprintf("%s %q served with %s %q nested in its handler: cache keys (recent first) %q, want %q then %q first: %s", q.method, q.path, lastDyn.method, lastDyn.path, k, *lastDynKey, want, ctx)
+			}
+			ev.Class("request-with-a-nested-request-in-its-handler")
+			// put the order back to what the steps below assume
+			r.ServeHTTP(httptest.NewRecorder(), &http.Request{Method: q.method, URL: &url.URL{Path: q.path}, Header: http.Header{}})
+		}
+		*lastDyn, *lastDynKey = q, want
 	}
 	return ""
 }
